@@ -166,11 +166,12 @@ CLAIMS = {
                 "positions and every structurally conforming, nationally valid BBAN: BBAN.from_components on the components read "
                 "off it succeeds, has the same length and agrees with it at every component's position; filler positions are "
                 "unconstrained), via Proofs/PlaceFacts.v, RebuildFacts.v, ComputeShape.v under data obligations on the regenerated "
-                "tables (layout, widths, accepted fields, no bank-specific algorithm outside DE). Random draws (the other producer "
-                "the property names) funnel through from_components in the model but are covered by streams only (C13). Streams: "
+                "tables (layout, widths, accepted fields, no bank-specific algorithm outside DE), C09_random_valid (the same for every "
+                "BBAN that BBAN.random returns, for all generator/rstr outputs that are clean text, by the fact that the retry loop "
+                "returns only what from_components built). Streams: "
                 "generate + validate(validate_bban=True) on component combinations of every width for the 19 countries incl. "
                 "edge digits; decompose/rebuild on spec-selected nationally valid IBANs for every country; correspondence.",
-        "note": COMMON_NOTE + " For the random producer the theorem is not proved (partial there).",
+        "note": COMMON_NOTE + " The random producer's theorem assumes what rstr returns is clean text once upper-cased (true of matches of the country patterns).",
         "technique": "Coq proof (placement loop, check-digit agreement, rebuild) + data obligations + correspondence + spec-selected inputs",
         "design_ref": "DESIGN.md §4 C09",
     },
